@@ -66,6 +66,12 @@ func (f Flat) Expand() Unit {
 			u.Sub = []Unit{{Conn: "W", Form: "raw", Ast: x, Case: "upper"}, {Conn: "O", Form: "raw", Ast: y, Case: "upper"}}
 		case "not":
 			u.Sub = []Unit{{Conn: "N", Form: "raw", Ast: x, Case: "upper"}}
+		case "args":
+			// one call, several condition arguments
+			third := map[string]string{"AB": "C", "BC": "A", "AC": "B"}[f.X+f.Y]
+			u.Multi = true
+			u.Sub = []Unit{{Conn: "W", Form: "group", Sub: []Unit{{Conn: "W", Form: "raw", Ast: x, Case: "upper"}, {Conn: "O", Form: "raw", Ast: y, Case: "upper"}}},
+				{Conn: "W", Form: "expr", Ast: atomOf(third)}}
 		case "orx":
 			u.Sub = []Unit{{Conn: "W", Form: "expr", Ast: Or(x, y)}}
 		case "andx":
@@ -151,7 +157,7 @@ func replay(args []string) error {
 		fins = []Fin{{Kind: "update"}, {Kind: "updates"}, {Kind: "updatecol"}, {Kind: "updatecols"}, {Kind: "delete"},
 			{Kind: "update", Allow: "session"}, {Kind: "delete", Allow: "session"}, {Kind: "delete", Unscoped: true},
 			{Kind: "update", Prior: "count", Clone: "session"}, {Kind: "delete", Prior: "noop_updates", Clone: "withctx"},
-			{Kind: "updates", Prior: "find", Clone: "debug"},
+			{Kind: "updates", Prior: "find", Clone: "debug"}, {Kind: "updates", KeyPay: "map"}, {Kind: "updates", KeyPay: "struct"},
 			{Kind: "delete", Unscoped: true, Late: true, Prior: "count"}, {Kind: "update", Unscoped: true, Late: true, Prior: "find"},
 			{Kind: "delete", Unscoped: true, Late: true, Prior: "find", Clone: "session"}}
 	}
@@ -305,6 +311,9 @@ func randEmptyChain(r *rand.Rand) ([]Unit, []Fin) {
 		fin.Prior = []string{"count", "noop_updates", "find"}[r.Intn(3)]
 		fin.Clone = []string{"session", "withctx", "debug", ""}[r.Intn(4)]
 		fin.Late = fin.Unscoped && r.Intn(2) == 0
+	}
+	if fin.Kind == "updates" && r.Intn(3) == 0 {
+		fin.KeyPay = []string{"map", "struct"}[r.Intn(2)]
 	}
 	return chain, []Fin{fin}
 }
